@@ -396,16 +396,26 @@ Definition opt_str_eqb (a b : option str) : bool := match a, b with Some x, Some
 Definition same_ins (l : list ospan) : bool :=
   match l with [] => false | x :: _ => forallb (fun y => opt_str_eqb (o_ins y) (o_ins x)) l && match o_ins x with Some (_ :: _) => true | _ => false end end.
 Definition is_some_nonempty (x : option str) : bool := match x with Some (_ :: _) => true | _ => false end.
-Definition same_para_direct (d : doc) (uids : list nat) : bool :=
+(* every resolved run is a direct child of a paragraph (not inside another mark); the runs may lie in several paragraphs *)
+Definition all_direct (d : doc) (uids : list nat) : bool := forallb (fun v => is_direct v d) uids.
+(* all resolved runs lie in one story (document part): revision marks and comment ranges cannot span parts (fix D57) *)
+Definition run_story (u : nat) (d : doc) : option nat := match para_of_run u d with Some p => story_of p d | None => None end.
+Definition one_story (d : doc) (uids : list nat) : bool :=
   match uids with
   | [] => true
-  | u :: _ => forallb (fun v => is_direct v d && opt_nat_eqb (para_of_run v d) (para_of_run u d)) uids
+  | u :: _ => forallb (fun v => opt_nat_eqb (run_story v d) (run_story u d)) uids
+  end.
+Definition crosses (d : doc) (uids : list nat) : bool :=
+  match uids with
+  | [] => false
+  | u :: _ => negb (forallb (fun v => opt_nat_eqb (para_of_run v d) (para_of_run u d)) uids)
   end.
 
 (* engine with its maps: raw map (self.mapper, possibly stale exactly as in the code) and the accepted-view map *)
 Record est := { s_eng : eng; s_raw : list ospan; s_clean : option (list ospan); s_cm0 : list comment (* comments at engine construction *);
-                s_cmc : list comment (* comments when the accepted-view mapper was constructed *) }.
-Definition set_eng (s : est) (e : eng) : est := {| s_eng := e; s_raw := s_raw s; s_clean := s_clean s; s_cm0 := s_cm0 s; s_cmc := s_cmc s |}.
+                s_cmc : list comment (* comments when the accepted-view mapper was constructed *);
+                s_xp : nat (* bookkeeping of the MODEL only: number of deletions / modifications whose resolved runs lay in more than one paragraph *) }.
+Definition set_eng (s : est) (e : eng) : est := {| s_eng := e; s_raw := s_raw s; s_clean := s_clean s; s_cm0 := s_cm0 s; s_cmc := s_cmc s; s_xp := s_xp s |}.
 
 (* ---------- the nested-insertion shortcut: an edit that starts inside a pending insertion replaces that insertion ---------- *)
 Fixpoint first_ins_node (i : str) (n : node) : option node :=      (* //w:ins[@w:id=i], document order *)
@@ -513,13 +523,15 @@ Definition apply_indexed (s : est) (use_clean : bool) (start : nat) (target new 
       end
   | _ =>
       let '(d1, work, modif) := resolve (e_doc e) sp start (start + ln) in
-      let s1 := if modif then (if use_clean then {| s_eng := with_doc e d1; s_raw := s_raw s; s_clean := Some (build_map true (s_cmc s) d1); s_cm0 := s_cm0 s; s_cmc := s_cmc s |}
-                               else {| s_eng := with_doc e d1; s_raw := build_map false (s_cm0 s) d1; s_clean := s_clean s; s_cm0 := s_cm0 s; s_cmc := s_cmc s |})
-                else set_eng s (with_doc e d1) in
+      let xp := s_xp s + (if crosses d1 work && one_story d1 work then 1 else 0) in
+      let s1 := if modif then (if use_clean then {| s_eng := with_doc e d1; s_raw := s_raw s; s_clean := Some (build_map true (s_cmc s) d1); s_cm0 := s_cm0 s; s_cmc := s_cmc s; s_xp := xp |}
+                               else {| s_eng := with_doc e d1; s_raw := build_map false (s_cm0 s) d1; s_clean := s_clean s; s_cm0 := s_cm0 s; s_cmc := s_cmc s; s_xp := xp |})
+                else {| s_eng := with_doc e d1; s_raw := s_raw s; s_clean := s_clean s; s_cm0 := s_cm0 s; s_cmc := s_cmc s; s_xp := xp |} in
       match work with
       | [] => (s1, Skipped)
       | w0 :: _ =>
-        if negb (same_para_direct d1 work) then (s, Outside 3)      (* cross-paragraph edit, or text inside another mark *)
+        if negb (one_story d1 work) then (s1, Skipped)               (* the range runs from one story into another: not editable (fix D57) *)
+        else if negb (all_direct d1 work) then (s, Outside 3)      (* cross-paragraph edit, or text inside another mark *)
         else
           let lastw := match last_opt work with Some x => x | None => w0 end in
           let last_rpr := run_rpr lastw d1 in
@@ -586,7 +598,7 @@ Definition locate (s : est) (target : str) (orc : list fm) : fm * bool * est * l
     let '(m1, orc1) := match orc with a :: r => (a, r) | [] => (None, []) end in
     let cmc := match s_clean s with Some _ => s_cmc s | None => d_comments (e_doc (s_eng s)) end in
     let cm := match s_clean s with Some c => c | None => build_map true cmc (e_doc (s_eng s)) end in
-    let s' := {| s_eng := s_eng s; s_raw := s_raw s; s_clean := Some cm; s_cm0 := s_cm0 s; s_cmc := cmc |} in
+    let s' := {| s_eng := s_eng s; s_raw := s_raw s; s_clean := Some cm; s_cm0 := s_cm0 s; s_cmc := cmc; s_xp := s_xp s |} in
     match find_on cm target with
     | Some i => (Some (i, length target), true, s', orc1)
     | None =>
@@ -642,7 +654,7 @@ Definition apply_heuristic (s : est) (target new comment : str) (orc : list fm) 
 (* ---------- batches ---------- *)
 Record edit := { ed_target : str; ed_new : str; ed_comment : str; ed_index : option nat }.
 Definition overl (occ : list (nat * nat)) (a b : nat) : bool := existsb (fun r => (a <? snd r) && (fst r <? b)) occ.
-Definition rebuild (s : est) : est := {| s_eng := s_eng s; s_raw := build_map false (s_cm0 s) (e_doc (s_eng s)); s_clean := None; s_cm0 := s_cm0 s; s_cmc := s_cmc s |}.
+Definition rebuild (s : est) : est := {| s_eng := s_eng s; s_raw := build_map false (s_cm0 s) (e_doc (s_eng s)); s_clean := None; s_cm0 := s_cm0 s; s_cmc := s_cmc s; s_xp := s_xp s |}.
 (* result: state, applied, skipped, outside? *)
 (* the match ranges are planned once, on the map as it stands before any heuristic edit *)
 Fixpoint plan (text : list ospan) (es : list edit) (orc : list fm) : list (edit * option (nat * nat)) * list fm :=
@@ -689,7 +701,7 @@ Definition step_idx (acc : est * nat * nat * nat * list (nat * nat) * nat) (ed :
 (* result: document, applied, skipped, stop code (0 = none), number of nested-insertion replacements *)
 Definition apply_edits (d : doc) (author ts : str) (edits : list edit) (orc : list fm) : doc * nat * nat * nat * nat :=
   let e := mk_engine d author ts in
-  let s0 := {| s_eng := e; s_raw := build_map false (d_comments (e_doc e)) (e_doc e); s_clean := None; s_cm0 := d_comments (e_doc e); s_cmc := [] |} in
+  let s0 := {| s_eng := e; s_raw := build_map false (d_comments (e_doc e)) (e_doc e); s_clean := None; s_cm0 := d_comments (e_doc e); s_cmc := []; s_xp := 0 |} in
   let indexed := filter (fun x => match ed_index x with Some _ => true | None => false end) edits in
   let heur := filter (fun x => match ed_index x with Some _ => false | None => true end) edits in
   let '(s1, ap1, sk1, out1, occ1, nn1) := fold_left step_idx (sort_idx_desc indexed) (s0, 0, 0, 0, [], 0) in
@@ -701,6 +713,23 @@ Definition apply_edits (d : doc) (author ts : str) (edits : list edit) (orc : li
     let '(s2, ap2, sk2, out2, _, _, nn2) := fold_left step_heur planned (sr, ap1, sk1, out1, orc1, occ1, nn1) in
     (e_doc (s_eng s2), ap2, sk2, out2, nn2)
   end.
+
+(* the same batch, reporting also the model's count of cross-paragraph deletions / modifications (agreement: Proofs/EngineProofs.v apply_edits_x_fst) *)
+Definition apply_edits_x (d : doc) (author ts : str) (edits : list edit) (orc : list fm) : doc * nat * nat * nat * nat * nat :=
+  let e := mk_engine d author ts in
+  let s0 := {| s_eng := e; s_raw := build_map false (d_comments (e_doc e)) (e_doc e); s_clean := None; s_cm0 := d_comments (e_doc e); s_cmc := []; s_xp := 0 |} in
+  let indexed := filter (fun x => match ed_index x with Some _ => true | None => false end) edits in
+  let heur := filter (fun x => match ed_index x with Some _ => false | None => true end) edits in
+  let '(s1, ap1, sk1, out1, occ1, nn1) := fold_left step_idx (sort_idx_desc indexed) (s0, 0, 0, 0, [], 0) in
+  match heur with
+  | [] => (e_doc (s_eng s1), ap1, sk1, out1, nn1, s_xp s1)
+  | _ =>
+    let sr := rebuild s1 in
+    let '(planned, orc1) := plan (s_raw sr) (sort_len_desc heur) orc in
+    let '(s2, ap2, sk2, out2, _, _, nn2) := fold_left step_heur planned (sr, ap1, sk1, out1, orc1, occ1, nn1) in
+    (e_doc (s_eng s2), ap2, sk2, out2, nn2, s_xp s2)
+  end.
+
 
 (* ---------- REPLY: engine._reply_to_comment + _anchor_reply_comment + CommentsManager.add_comment(parent_id) ---------- *)
 Fixpoint thread_root (fuel : nat) (cm : list comment) (i : str) : str :=
